@@ -37,3 +37,18 @@ func (c *Client) VerifCloseProxies() {
 		return true
 	})
 }
+
+// VerifAPIUnpublish / VerifAPIRelease do what the local API handlers POST /unpublish/{hostname}
+// and POST /release/{hostname} do after parsing the hostname: take syncMu, then call
+// UnpublishTunnel / ReleaseTunnel with a Tunnel that carries only the hostname (server.go).
+func (c *Client) VerifAPIUnpublish(ctx context.Context, hostname string) error {
+	c.syncMu.Lock()
+	defer c.syncMu.Unlock()
+	return c.UnpublishTunnel(ctx, Tunnel{Hostname: hostname})
+}
+
+func (c *Client) VerifAPIRelease(ctx context.Context, hostname string) error {
+	c.syncMu.Lock()
+	defer c.syncMu.Unlock()
+	return c.ReleaseTunnel(ctx, Tunnel{Hostname: hostname})
+}
